@@ -5,7 +5,7 @@ use crate::lm_ots::parameters::{LmotsAlgorithm, LmotsParameter};
 use crate::lms::helper::get_tree_element;
 use crate::lms::parameters::LmsAlgorithm;
 use crate::lms::MutableExpandedAuxData;
-use crate::util::helper::read_and_advance;
+use crate::util::helper::read_and_advance_checked;
 use crate::{lm_ots, Seed};
 
 use core::convert::TryInto;
@@ -123,17 +123,17 @@ impl<'a, H: HashChain> InMemoryLmsPublicKey<'a, H> {
         let mut data_index = 0;
 
         let lms_parameter = LmsAlgorithm::get_from_type(u32::from_be_bytes(
-            read_and_advance(data, 4, &mut data_index)
+            read_and_advance_checked(data, 4, &mut data_index)?
                 .try_into()
-                .unwrap(),
+                .ok()?,
         ))?;
         let lmots_parameter = LmotsAlgorithm::get_from_type(u32::from_be_bytes(
-            read_and_advance(data, 4, &mut data_index)
+            read_and_advance_checked(data, 4, &mut data_index)?
                 .try_into()
-                .unwrap(),
+                .ok()?,
         ))?;
-        let lms_tree_identifier = read_and_advance(data, 16, &mut data_index);
-        let key = read_and_advance(data, H::OUTPUT_SIZE.into(), &mut data_index);
+        let lms_tree_identifier = read_and_advance_checked(data, 16, &mut data_index)?;
+        let key = read_and_advance_checked(data, H::OUTPUT_SIZE.into(), &mut data_index)?;
 
         Some(Self {
             lmots_parameter,
